@@ -1893,6 +1893,11 @@ class InTableTextPhase(Phase):
         self.parser.phase = self.originalPhase
         return token
 
+    def processDoctype(self, token):
+        self.flushCharacters()
+        self.parser.phase = self.originalPhase
+        return token
+
     def processEOF(self):
         self.flushCharacters()
         self.parser.phase = self.originalPhase
